@@ -160,6 +160,21 @@ CHECKS = {
         note=('Exhaustive for the stated finite cell table only. The "via comma" form of the quantifier text is not expressible in '
               'the grammar and is listed as unreachable. Quantifier binders have no accepted twin.'),
     ),
+    'C13': dict(
+        engine='oracle-server + cell enumeration (harness/py/prop_C13.py, cells.py)',
+        technique='exhaustive cell enumeration with a twin (metamorphic) oracle: compile-time context x dependence chain to a mutable variable; the dependent model must be rejected, the twin with the chain end made const must be accepted; free-parameter cells with 0..3 initialiser hops',
+        category='exploration',
+        text=('27 compile-time contexts (array sizes, range bounds, scalar-set sizes - global, template, function, struct field, '
+              'typedef; six kinds of initialiser; const by-value and const-reference template arguments; select / iteration / '
+              'quantifier ranges) x 43 dependence chains to a mutable variable (direct forms and functions reading it in every '
+              'statement and initialiser position, call chains to depth 4) plus 42 cells about free process parameters reaching '
+              'an array size through 0..3 constant initialisers in seven positions and about template parameters in sizes. '
+              'The dependent model must be rejected and its constant twin accepted.'),
+        design_ref='DESIGN.md 4/C13',
+        note=('Exhaustive for the stated finite cell table only. Types are always used by a variable. A select range that depends '
+              'on a free process parameter is accepted by the library and is not covered by the statement (array sizes only); those '
+              'cells were removed.'),
+    ),
     'C14': dict(
         engine='oracle-server expression builder + TypeChecker::checkExpression; cell enumeration + Hypothesis (harness/py/prop_C14.py)',
         technique='metamorphic testing (operand swap): acceptance and result-type kind of a op b vs b op a, c ? a : b vs !c ? b : a (bare and inside lvalue / reference-argument contexts), f(A&) with a B variable vs f(B&) with an A variable; complete enumeration of type-class pairs x operators, random representatives',
